@@ -582,9 +582,10 @@ fn run_de(ty: &str, j: Value) -> Option<(String, Verdict)> {
 // ------------------------------------------------------------------------------------------------
 
 fn g_str(rng: &mut Rng) -> UAString {
-    match rng.weighted(&[1, 1, 8]) {
+    match rng.weighted(&[1, 1, 8, 2]) {
         0 => UAString::null(),
         1 => UAString::from(""),
+        3 => UAString::from(*rng.pick(SLOT_STRINGS)),
         _ => {
             let n = rng.range(1, 5);
             let mut s = String::new();
@@ -720,10 +721,60 @@ fn g_f64(rng: &mut Rng) -> f64 {
     }
 }
 
+/// strings that, in a JSON slot shared with a number or a keyword, could be taken for one
+pub const SLOT_STRINGS: &[&str] = &[
+    "7", "0", "1", "65535", "65536", "4294967295", "4294967296", "-1", "+1", "00", "007", " 7", "7 ", "1e3", "1.0", "0x10", "true", "false", "null",
+    "NaN", "Infinity", "-Infinity", "~", "i=5", "ns=1;i=5", "nsu=7;i=5", "svr=1;i=5", "\"7\"", "[]", "{}",
+];
+
+/// every string-typed field of every typed value holding each of `SLOT_STRINGS` (round trip through the real JSON text)
+fn slot_string_ops() -> Vec<String> {
+    let mut out = vec![];
+    for s in SLOT_STRINGS {
+        let u = UAString::from(*s);
+        for ns in [0u16, 2, 7] {
+            for svr in [0u32, 1] {
+                for id in [Identifier::Numeric(5), Identifier::String(u.clone())] {
+                    let e = ExpandedNodeId { node_id: NodeId { namespace: ns, identifier: id }, namespace_uri: u.clone(), server_index: svr };
+                    out.push(format!("rt xnid {}", tree_out(&xnid_tree(&e))));
+                    if ns == 0 && svr == 0 {
+                        out.push(format!("rt var {}", tree_out(&var_tree(&Variant::from(e.clone())))));
+                    }
+                }
+            }
+            let n = NodeId { namespace: ns, identifier: Identifier::String(u.clone()) };
+            out.push(format!("rt nid {}", tree_out(&nid_tree(&n))));
+            out.push(format!("rt var {}", tree_out(&var_tree(&Variant::from(n)))));
+            let q = QualifiedName { namespace_index: ns, name: u.clone() };
+            out.push(format!("rt qn {}", tree_out(&qn_tree(&q))));
+            out.push(format!("rt var {}", tree_out(&var_tree(&Variant::from(q)))));
+        }
+        for l in [
+            LocalizedText { locale: u.clone(), text: u.clone() },
+            LocalizedText { locale: UAString::null(), text: u.clone() },
+            LocalizedText { locale: u.clone(), text: UAString::null() },
+        ] {
+            out.push(format!("rt lt {}", tree_out(&lt_tree(&l))));
+            out.push(format!("rt var {}", tree_out(&var_tree(&Variant::from(l)))));
+        }
+        out.push(format!("rt str {}", opt_shex(&u)));
+        out.push(format!("rt var {}", tree_out(&var_tree(&Variant::String(u.clone())))));
+        out.push(format!("rt var {}", tree_out(&var_tree(&Variant::XmlElement(u.clone())))));
+        let dv = DataValue { value: Some(Variant::String(u.clone())), ..DataValue::null() };
+        out.push(format!("rt dv {}", tree_out(&dv_tree(&dv))));
+    }
+    out
+}
+
 fn g_xnid(rng: &mut Rng) -> ExpandedNodeId {
     ExpandedNodeId {
         node_id: g_nid(rng),
-        namespace_uri: if rng.chance(1, 4) { UAString::from(format!("urn:{}", rng.below(100))) } else { UAString::null() },
+        namespace_uri: match rng.below(8) {
+            0 => UAString::from(format!("urn:{}", rng.below(100))),
+            1 => UAString::from(*rng.pick(SLOT_STRINGS)),
+            2 => g_str(rng),
+            _ => UAString::null(),
+        },
         server_index: *rng.pick(&[0u32, 0, 1, u32::MAX]),
     }
 }
@@ -1081,7 +1132,7 @@ fn boundary_ops() -> Vec<String> {
     out.push(format!("de nid o({},i5,{},{})", k("Id"), k("Namespace"), k("urn:x")));
     out.push(format!("de xnid o({},i5,{},{})", k("Id"), k("Namespace"), k("urn:x")));
     out.push(format!("de xnid o({},i5,{},{})", k("Id"), k("Namespace"), k("")));
-    for su in ["i0", "i1", "i4294967295", "i4294967296", "i-1", k("x").as_str()] {
+    for su in ["i0", "i1", "i4294967295", "i4294967296", "i4294967297", "i18446744073709551615", "i-1", k("x").as_str()] {
         out.push(format!("de xnid o({},i5,{},{})", k("Id"), k("ServerUri"), su));
     }
     // identifier kinds x (ok, empty, malformed, wrong kind), numeric truncation
@@ -1189,6 +1240,9 @@ impl Prop for C42 {
             out.push(format!("de dt {}", shex(s)));
         }
         for op in boundary_ops() {
+            out.push(op);
+        }
+        for op in slot_string_ops() {
             out.push(op);
         }
         for _ in 0..n {
